@@ -135,6 +135,13 @@ def _try(spec, kind, c, pieces, ref, cls_inst):
                               "flip": c.random() < 0.5, "op": "connect"})
           return {MW, IC}
         _newblk(cd, "zdup", [["assign", path[:-1] + [["s", nlo, nhi]], ["const", nhi - nlo, 0]]])
+        if c.random() < 0.5:
+          # a third, READ-ONLY slice that overlaps both written slices (their intersection), read by a block
+          # that comes first in the source: the sibling scan must not stop at it
+          ilo, ihi = max(lo, nlo), min(hi, nhi)
+          if ihi > ilo:
+            cd["signals"].append({"name": "zq2", "kind": "wire", "type": ihi - ilo, "dims": []})
+            _newblk(cd, "zrd2", [["assign", [["a", "zq2"]], ["rd", path[:-1] + [["s", ilo, ihi]], ihi - ilo]]])
         return {MW}
   if kind == "dup_parent_field":
     for (cname, j, k, path) in P:
